@@ -153,6 +153,11 @@ func c09History(rc *RunCtx, c *c09cfg, w *W1) {
 					}).Daemon = true
 				}
 				w.Exchange(u, call)
+				if call.Err != nil && ctx.Err() == nil {
+					// the server is healthy, dials succeed, the context is live:
+					// nothing licenses a failure
+					rc.Fail("query_refused_on_healthy_transport", "call %d failed with %q although its context is live, the server answers and connections can be opened (limit %d)", call.Idx, call.Err, c.L)
+				}
 				cancel()
 				w.CheckProvenance(call)
 			}
@@ -296,12 +301,34 @@ func c09Dialing(rc *RunCtx, c *c09cfg, w *W1) {
 	_ = extra
 	simrt.Probe("c09.dial_released_with_queued_callers")
 	close(dialGate)
-	for i := 0; i < n; i++ {
+	// Late callers arrive at the very instant the dial completes: they compete
+	// with the queued callers for the fresh connection's slots. The queued ones
+	// must still all be admitted (the late ones may go to another connection).
+	nlate := simrt.Choose(3)
+	var late []*Call
+	for i := 0; i < nlate; i++ {
+		call := w.NewCall(70+i, 0, uint16(70+i), 1)
+		late = append(late, call)
+		simrt.GoNamed(fmt.Sprintf("late%d", i), func() {
+			w.Exchange(u, call)
+			simrt.Send(0, done, struct{}{})
+		})
+	}
+	if nlate > 0 {
+		simrt.Probe("c09.late_callers_at_dial_completion")
+	}
+	for i := 0; i < n+nlate; i++ {
 		simrt.Recv(0, done)
 	}
 	for _, x := range calls {
 		if x.Err != nil && rc.Viol == nil {
 			rc.Fail("queued_query_refused_after_dial", "call %d, queued while the connection was dialing (queue limit %d = connection limit %d), failed after the dial succeeded: %v", x.Idx, c.L, c.L, x.Err)
+		}
+		w.CheckProvenance(x)
+	}
+	for _, x := range late {
+		if x.Err != nil && rc.Viol == nil {
+			rc.Fail("late_query_failed", "call %d, issued when the dial completed, failed: %v", x.Idx, x.Err)
 		}
 		w.CheckProvenance(x)
 	}
